@@ -96,18 +96,35 @@ def _finite_moduli(ev, lo=1e-3):
     return sorted(abs(x) for x in ev if np.isfinite(abs(x)) and lo < abs(x) < 1.0 / lo)
 
 
-def _moduli_match(mine_ev, their_ev):
-    """Every own modulus above 2e-3 has a partner among theirs above 1e-3 and vice versa
-    (defective zero roots perturb to ~eps**(1/k) and are representation dependent)."""
+def _moduli_match(spec, mine_ev, their_ev):
+    """(i) Every modulus in (0.1, 10) of either list has a partner in the other.  (ii) Every finite eigenvalue irispie reports with a
+    modulus in (1e-3, 5e2) is an eigenvalue of the harness's own pencil: the smallest singular value of A*z + B
+    vanishes.  Outside (0.1, 10) the harness's own list is not used: a defective zero (infinite) root of multiplicity
+    k comes back as a ring of radius ~eps**(1/k) (its reciprocal), 6e-3 for k = 7, whose position depends on the
+    representation; such a ring passes (ii) because the singular value at z is ~|z|**k."""
+    def ring(ev, lo, hi):
+        return sorted(abs(x) for x in ev if np.isfinite(abs(x)) and lo < abs(x) < hi)
+
     def one_way(a_ev, b_ev):
-        b = _finite_moduli(b_ev, 1e-3)
-        for a in _finite_moduli(a_ev, 2e-3):
+        b = ring(b_ev, 0.09, 11.0)                  # wider on the partner's side: no effect of the ring's edge
+        for a in ring(a_ev, 0.1, 10.0):
             hit = next((i for i, x in enumerate(b) if abs(x - a) <= 1e-6 * max(1.0, a)), None)
             if hit is None:
                 return False
             b.pop(hit)
         return True
-    return one_way(mine_ev, their_ev) and one_way(their_ev, mine_ev)
+    if not (one_way(mine_ev, their_ev) and one_way(their_ev, mine_ev)):
+        return False
+    A, B, _ = lm.pencil(spec)
+    norm = max(1.0, float(np.linalg.norm(A, 2)), float(np.linalg.norm(B, 2)))
+    for z in their_ev:
+        z = complex(z)
+        if not (np.isfinite(abs(z)) and 1e-3 < abs(z) < 5e2):
+            continue
+        smin = float(np.linalg.svd(A * z + B, compute_uv=False)[-1])
+        if smin > 1e-7 * norm * max(1.0, abs(z)):
+            return False
+    return True
 
 
 def _unstable_count(m):
@@ -157,7 +174,7 @@ def _check(case):
             col.check(nun != nf, "roots:unstable_count_nondeterminate",
                       lambda: f"harness: {kind} ({nf} leads); irispie reports {nun} unstable roots (= leads)\n{lm.source(spec)}")
         their_ev = api("get_eigenvalues", m.get_eigenvalues)
-        col.check(_moduli_match(ev, their_ev), "roots:eigenvalues",
+        col.check(_moduli_match(spec, ev, their_ev), "roots:eigenvalues",
                   lambda: f"own {_finite_moduli(ev)} vs irispie {_finite_moduli(their_ev)}\n{lm.source(spec)}")
     if kind != "determinate":
         col.done()
@@ -370,6 +387,13 @@ def _check_growth(case):
         return np.log(a) if spec["log"] else a
 
     scale = 1.0 + max(float(np.max(np.abs(tr(pS.arr(nm))))) for nm in names)
+    # the steady path itself must satisfy the equations (in logs for log-variables) well below the tolerances used here:
+    # the steady solver stops at an absolute residual of the level equations, which for levels of 1e-6 leaves a
+    # relative error of 1e-7 that a near-unit root multiplies further; the accuracy of solve_steady is C05's subject
+    getS = sd.getter(pS, spec)
+    worstS = max((abs(ri) for t in range(0, T - Fmax) for ri in lm.residuals(spec, getS, t)), default=0.0)
+    if not (worstS <= 1e-9 * scale):
+        return {"labels": ["steady_path_inexact"], "nontrivial": False}
     # (1) without shocks the level simulation stays on the steady (growth) path
     P0 = api("simulate_no_shocks", m.simulate, base.copy(), span, method="first_order")
     p0 = sd.Paths(P0, spec, start, -Lmax, T - 1)
